@@ -251,4 +251,10 @@ theorem tie_DriverSendTo (fuel : Nat) (s : TQ) (a : TAns) (hd : s.destroyed = fa
     simp [afterTqWritable, tqStep]
   | cons e rest =>
     cases a <;> tie_tq_simp <;> simp [afterTqWritable, tqStep, dec_len']
+
+/-- the UDP enqueue side is the same template as the TCP one (tied to the model in Props/C02 `tie_AsyncSend`): for
+EVERY world, `SendTo` does what `Send` does - lock, read `q.empty()`, `emplace`, unlock, arm iff the queue was empty -/
+theorem tie_AsyncSendTo {ω : Type} (W : Gen.QueueWorld ω) (fuel : Nat) : Gen.AsyncSendTo W fuel = Gen.AsyncSend W fuel := by
+  funext w
+  simp only [Gen.AsyncSendTo, Gen.AsyncSend, Gen.DoSend_Udp, Gen.DoSend_Tcp, Gen.DoSendEnqueue_Udp, Gen.DoSendEnqueue_Tcp]
 end SockModel.Props.C09
